@@ -5,14 +5,28 @@ open Gossamer Gossamer.C26
 /- line:  `L|op;op;…`  (see harness/C26/c26_test.go for the op list)
    output: the outputs of the ops joined by `;` -/
 
+structure Def where
+  id : Nat
+  blk : C17.Blk
+  slot : Nat
+
 structure DSt where
   st : St
-  /-- headers defined by the line: id ↦ header (id 0 = genesis) -/
-  defs : List (Nat × Hdr)
+  /-- headers defined by the line (id 0 = genesis); model hash = id + 1 -/
+  defs : List Def
+  round : Nat
 
 def maxID : Nat := 8
 
-def hdrOf (d : DSt) (id : Nat) : Option Hdr := lookup d.defs id
+def defOf (d : DSt) (id : Nat) : Option Def := d.defs.find? (fun x => x.id = id)
+
+def univ (d : DSt) : Univ :=
+  { blk := fun h => match d.defs.find? (fun x => x.blk.hash = h) with
+      | some x => x.blk
+      | none => default
+    slot := fun h => match d.defs.find? (fun x => x.blk.hash = h) with
+      | some x => x.slot
+      | none => 0 }
 
 /-- block id of a model hash (hash = id + 1) -/
 def idOfHash (h : Nat) : String := if h = 0 then "-1" else toString (h - 1)
@@ -32,8 +46,8 @@ def showRes : Res → String
   | .errParent => "err-parent"
   | .timeout => "timeout"
 
-def qe (d : DSt) (h : Hdr) (e : Nat) : String := showRes (getEpochDataRaw d.st e h)
-def qc (d : DSt) (h : Hdr) (e : Nat) : String := showRes (getConfigData d.st h e)
+def qe (d : DSt) (h : C17.Blk) (e : Nat) : String := showRes (getEpochDataRaw d.st e h)
+def qc (d : DSt) (h : C17.Blk) (e : Nat) : String := showRes (getConfigData d.st h e)
 
 def insertSortedS (x : String) : List String → List String
   | [] => [x]
@@ -47,83 +61,130 @@ def dumpMap (m : EpochMap) : String :=
     let ents := (lookup m e).getD []
     s!"{e}:" ++ ",".intercalate (sortS (ents.map fun p => s!"{idOfHash p.1}={p.2}")))
 
-def nat? (s : String) : Option Nat := s.toNat?
+def dumpDB (m : List (Nat × Nat)) : String :=
+  let epochs := sortDedup (m.map (·.1))
+  " ".intercalate (epochs.map fun e => s!"{e}={(lookup m e).getD 0}")
+
+def rangeName : C17.RangeRes → String
+  | .ok _ => "ok"
+  | .endNotFound => "end"
+  | .startNotFound => "start"
+  | .startGreater => "greater"
+  | .nilBlock => "nil"
+  | .notAncestor => "notanc"
+
+def finName : C17.FinRes → String
+  | .ok => "ok"
+  | .errUnknown => "err-unknown"
+  | .errSetID => "err-setid"
+  | .errRange r => "err-range-" ++ rangeName r
+  | .errMissing => "err-missing"
+  | .errHeader => "err-header"
+
+def triName : Tri → String
+  | .ok => "ok"
+  | .err => "err"
+  | .amb => "amb"
+
+def showOut : Out → String
+  | .ok => "ok"
+  | .err => "err"
+  | .amb => "amb"
+  | .res r => showRes r
+  | .fin r e c => if r = .ok then s!"ok E={triName e} C={triName c}" else finName r
 
 def stateOp (d : DSt) (o : Op) : DSt × String :=
-  let (st', ok) := step d.st o
-  ({ d with st := st' }, if ok then "ok" else "err")
+  let (st', out) := step (univ d) d.st o
+  ({ d with st := st' }, showOut out)
 
-def define (d : DSt) (id p s : Nat) : Option (DSt × Hdr) :=
-  match hdrOf d id with
-  | some h => some (d, h)
+def define (d : DSt) (id p s : Nat) : Option (DSt × Def) :=
+  match defOf d id with
+  | some x => some (d, x)
   | none =>
-    match hdrOf d p with
+    match defOf d p with
     | none => none
-    | some ph =>
+    | some px =>
       if id < 1 ∨ id > maxID then none
       else
-        let h : Hdr := { hash := id + 1, parent := ph.hash, number := ph.number + 1, slot := s }
-        some ({ d with defs := d.defs ++ [(id, h)] }, h)
+        let x : Def := { id := id, slot := s,
+                         blk := { hash := id + 1, parent := px.blk.hash, number := px.blk.number + 1, sroot := 0 } }
+        some ({ d with defs := d.defs ++ [x] }, x)
 
 def dataOK (x : Nat) : Bool := 1 ≤ x && x ≤ 65535
 
 def opStep (d : DSt) (f : List String) : DSt × String :=
   match f with
   | [k, a, b, c] =>
-    if k = "add" ∨ k = "mk" then
-      match nat? a, nat? b, nat? c with
-      | some id, some p, some s =>
-        match define d id p s with
+    match a.toNat?, b.toNat?, c.toNat? with
+    | some x, some y, some z =>
+      if k = "add" ∨ k = "mk" then
+        match define d x y z with
         | none => (d, "bad-op")
-        | some (d', h) => if k = "mk" then (d', "ok") else stateOp d' (.add h)
-      | _, _, _ => (d, "bad-op")
-    else (d, "bad-op")
+        | some (d', df) => if k = "mk" then (d', "ok") else stateOp d' (.add df.blk.hash)
+      else if k = "sqe" ∨ k = "sqc" ∨ k = "upd" then
+        match defOf d x with
+        | none => (d, "bad-op")
+        | some df =>
+          stateOp d (if k = "sqe" then .skipE df.blk.hash y z
+            else if k = "sqc" then .skipC df.blk.hash y z else .upd df.blk.hash y z)
+      else (d, "bad-op")
+    | _, _, _ => (d, "bad-op")
   | [k, a, b] =>
-    match nat? a, nat? b with
+    match a.toNat?, b.toNat? with
     | some x, some y =>
       if k = "ann" ∨ k = "cfg" then
-        match hdrOf d x with
-        | some h => if dataOK y then stateOp d (if k = "ann" then .ann h y else .cfg h y) else (d, "bad-op")
+        match defOf d x with
+        | some df =>
+          if dataOK y then stateOp d (if k = "ann" then .ann df.blk.hash y else .cfg df.blk.hash y)
+          else (d, "bad-op")
         | none => (d, "bad-op")
       else if k = "dbe" then (if dataOK y then stateOp d (.dbe x y) else (d, "bad-op"))
       else if k = "dbc" then (if dataOK y then stateOp d (.dbc x y) else (d, "bad-op"))
       else if k = "qe" ∨ k = "qc" then
-        match hdrOf d x with
-        | some h => (d, if k = "qe" then qe d h y else qc d h y)
+        match defOf d x with
+        | some df => (d, if k = "qe" then qe d df.blk y else qc d df.blk y)
         | none => (d, "bad-op")
       else (d, "bad-op")
     | _, _ => (d, "bad-op")
   | [k, a] =>
-    match nat? a with
+    match a.toNat? with
     | some x =>
       if k = "ep" then
-        match hdrOf d x with
-        | some h => (d, match epochForBlock d.st h with | some e => toString e | none => "err")
+        match defOf d x with
+        | some df => (d, match epochForBlock (univ d) d.st df.blk with | some e => toString e | none => "err")
         | none => (d, "bad-op")
+      else if k = "fin" then
+        let h := match defOf d x with
+          | some df => df.blk.hash
+          | none => 1000 + x
+        let d1 := { d with round := d.round + 1 }
+        stateOp d1 (.fin h d1.round)
       else if k = "qall" then
         if x > 12 then (d, "bad-op")
         else
           let rows := (List.range (maxID + 1)).filterMap fun id =>
-            match hdrOf d id with
+            match defOf d id with
             | none => none
-            | some h =>
-              let cells := (List.range (x + 1)).map fun e => qe d h e ++ "," ++ qc d h e
+            | some df =>
+              let cells := (List.range (x + 1)).map fun e => qe d df.blk e ++ "," ++ qc d df.blk e
               some (s!"{id}=" ++ ".".intercalate cells)
           (d, " ".intercalate rows)
       else (d, "bad-op")
     | none => (d, "bad-op")
   | ["restart"] => stateOp d .restart
-  | ["dump"] => (d, "E[" ++ dumpMap d.st.nextEpoch ++ "] C[" ++ dumpMap d.st.nextConfig ++ "]")
+  | ["dump"] =>
+    (d, "E[" ++ dumpMap d.st.nextEpoch ++ "] C[" ++ dumpMap d.st.nextConfig ++ "] DE[" ++ dumpDB d.st.dbEpoch
+      ++ "] DC[" ++ dumpDB d.st.dbConfig ++ s!"] S={d.st.fsn}")
   | _ => (d, "bad-op")
 
 def step' (line : String) : String :=
   match line.splitOn "|" with
   | [hd, body] =>
-    match (match words hd with | [x] => nat? x | _ => none) with
+    match (match words hd with | [x] => x.toNat? | _ => none) with
     | some l =>
       if l < 1 ∨ l > 1000 then "bad-op"
       else
-        let d0 : DSt := { st := St.init l, defs := [(0, genesis)] }
+        let d0 : DSt := { st := St.init l, defs := [{ id := 0, blk := genesis, slot := 0 }], round := 0 }
         let (_, outs) := (body.splitOn ";").foldl (fun (acc : DSt × List String) o =>
           let f := words o
           if f.isEmpty then acc
